@@ -1,4 +1,5 @@
 //! Reference model for the sqldatetime checks.  This crate deliberately has NO dependency on
 //! the crate under test.
 pub mod calendar;
+pub mod exact;
 pub mod ranges;
